@@ -145,9 +145,15 @@ func (p enumPos) place(cfg *lib.Cfg, v int64) bool {
 		} else if lf.Kind == lib.KOrdered {
 			vals := lib.OrderedValues(lv)
 			nm := reflect.New(lv.Type().Elem())
+			// the re-keyed entry first; another entry that now has the same key is dropped, as
+			// in the map case (a failed Append here used to leave the entry behind with an
+			// undefined key that no later restore could replace)
+			if !errOfOK(nm.MethodByName("Append").Call([]reflect.Value{p.node.V})[0]) {
+				return false
+			}
 			for _, e := range vals {
-				if !errOfOK(nm.MethodByName("Append").Call([]reflect.Value{e})[0]) {
-					return false
+				if e.Pointer() != p.node.V.Pointer() {
+					nm.MethodByName("Append").Call([]reflect.Value{e})
 				}
 			}
 			lv.Set(nm)
